@@ -77,6 +77,7 @@ type HarnessSpec struct {
 	Reach       bool // harness is a reachability witness only
 	KnownOpen   []string // ids of known findings listed as open (vKnown)
 	Par          int  // solver processes for this harness
+	IgnoreBlocked bool // a path that blocks forever is not a violation in this harness (assumed away, noted)
 	NoLightPass  bool // skip the first attempt without facts
 	NoTactic     bool // z3: plain (check-sat) instead of (check-sat-using qfaufbv)
 	GroupAsserts bool // decide all asserts with one query (cheap harnesses)
